@@ -259,3 +259,80 @@ func (p *Prog) foldDefaultZeroFields() {
 		delete(domCache, fn)
 	}
 }
+
+// dropNewSurface: in the inlined form the program is the one callers of the
+// reference tree's API run. Functions the reference tree does not have and
+// that nothing of it reaches — a new exported accessor, a new option
+// constructor and its closure, a new constructor variant — are new API
+// surface: no call sequence that was possible before gets there. They stay in
+// the form as written (where the rules that forbid something still see them).
+// Reachability is generous: direct calls, every function value mentioned,
+// closures, and every module method an interface call may dispatch to.
+func (p *Prog) dropNewSurface() {
+	knownFn := map[string]bool{}
+	for _, l := range strings.Split(knownFuncsText, "\n") {
+		l = strings.TrimSpace(l)
+		if l == "" || strings.HasPrefix(l, "#") || strings.HasPrefix(l, "field:") {
+			continue
+		}
+		name, _, _ := strings.Cut(l, "\t")
+		knownFn[name] = true
+	}
+	if len(knownFn) == 0 {
+		return
+	}
+	outer := func(fn *ssa.Function) *ssa.Function {
+		for {
+			if par := fn.Parent(); par != nil {
+				fn = par
+				continue
+			}
+			if e := p.encl[fn]; e != nil && e != fn {
+				fn = e
+				continue
+			}
+			return fn
+		}
+	}
+	// renamed known functions count as known (same heuristic as the inliner): a new name with the signature of a vanished one
+	present := map[string]bool{}
+	for _, fn := range p.Funcs {
+		if fn.Parent() == nil {
+			present[p.FuncName(fn)] = true
+		}
+	}
+	gone := 0
+	for n := range knownFn {
+		if !present[n] {
+			gone++
+		}
+	}
+	if gone > 0 {
+		return // a tree with renamed or deleted functions: nothing is dropped
+	}
+	var roots []*ssa.Function
+	for _, fn := range p.Funcs {
+		if knownFn[p.FuncName(outer(fn))] || isInitFunc(fn) {
+			roots = append(roots, fn)
+		}
+	}
+	live := p.reach(roots...)
+	keep := p.Funcs[:0]
+	var dropped []string
+	for _, fn := range p.Funcs {
+		if live[fn] || knownFn[p.FuncName(outer(fn))] {
+			keep = append(keep, fn)
+			continue
+		}
+		if fn.Parent() == nil {
+			dropped = append(dropped, p.FuncName(fn))
+		}
+	}
+	if len(dropped) == 0 {
+		return
+	}
+	p.Funcs = keep
+	p.Inlined += len(dropped)
+	sort.Strings(dropped)
+	inlineLog = append(inlineLog, "new API surface no function of the reference tree reaches, left to the form as written: "+strings.Join(dropped, ", "))
+}
